@@ -59,13 +59,17 @@ pub fn mig_case() -> impl Strategy<Value = MigCase> {
 		// already live in their final index page (holes inside a page)
 		let commits = proptest::collection::vec(prop_oneof![6 => mixed_items(&cfg, 14, 70_000, 8, 3).prop_map(Op::Commit), 1 => Just(Op::Drain)], 2..14);
 		let cfg2 = cfg.clone();
-		(commits, proptest::collection::vec(any::<u8>(), n..=n), proptest::collection::vec(0u8..3, n..=n), proptest::collection::vec(any::<bool>(), n..=n), any::<bool>()).prop_map(
-			move |(mut ops, dest, dest_compression, force, overwrite)| {
+		(commits, proptest::collection::vec(any::<u8>(), n..=n), proptest::collection::vec(0u8..3, n..=n), proptest::collection::vec(any::<bool>(), n..=n), any::<bool>(), any::<bool>()).prop_map(
+			move |(mut ops, dest, dest_compression, force, overwrite, drain_after_bulk)| {
 				// crafted column: bulk insert so that the index must grow once
 				for (i, c) in cfg2.cols.iter().enumerate() {
 					if matches!(c.keyset, KeySet::Crafted { .. }) {
 						let ids: Vec<u16> = (0..40u16).chain(256..292u16).collect();
-						ops.insert(0, Op::Drain);
+						// both orders matter: later writes that hit the keys while the grown index
+						// is still being filled (stale entries), or after it is final (holes)
+						if drain_after_bulk {
+							ops.insert(0, Op::Drain);
+						}
 						ops.insert(
 							0,
 							Op::Commit(ids.iter().map(|id| Item { col: i as u8, ch: Change::Set(*id, VSpec { len: 20 + (*id as u32 % 7), fill: 2, seed: *id }) }).collect()),
